@@ -246,3 +246,10 @@ Proof.
     + apply H. left; reflexivity. apply W2. left; reflexivity.
     + apply IHcs; intros; [apply H|apply W2]; auto; right; auto.
 Qed.
+
+(* a receiver that avoids every open finding with all flags on (the code as it is) *)
+Example ex_avoids_all :
+  avoids (Quirks true true true true true)
+    (SDict (Some [(KConst (S_ 120), SInt (Some 0) (Some 5) m0);
+                  (KConst (S_ 121), SList (SStr (Mods true None false)) 0 (Some 2) m0)]) m0) = true.
+Proof. reflexivity. Qed.
